@@ -630,6 +630,11 @@ func ctxLayers(tier string) []Layer {
 			facs = append(facs, fac{"NewString(" + is + "e-3)", n, big.NewInt(1000), func(cx *dctx.Context) *Dec { d, _ := cx.NewString(is + "e-3"); return d }})
 			facs = append(facs, fac{"ParseDecimal(" + is + ")", n, big1, func(cx *dctx.Context) *Dec { d, _, _ := cx.ParseDecimal(is, 10); return d }})
 		}
+		// NewString detects the base from the text (base 0, as SetString does)
+		for _, ls := range [][3]string{{"0x10", "16", "1"}, {"-0x1.8p1", "-3", "1"}, {"0b1011", "11", "1"}, {"0o17", "15", "1"}, {"1_000.5", "2001", "2"}, {"0x_ffp-2", "255", "4"}, {"1e1_0", "10000000000", "1"}} {
+			lit := ls[0]
+			facs = append(facs, fac{"NewString(" + lit + ")", mustInt(ls[1]), mustInt(ls[2]), func(cx *dctx.Context) *Dec { d, _ := cx.NewString(lit); return d }})
+		}
 		for _, fs := range []string{"1249.5", "-0.375", "99995", "4503599627370497"} {
 			f, _, _ := big.ParseFloat(fs, 10, 200, big.ToNearestEven)
 			r, _ := f.Rat(nil)
@@ -639,7 +644,7 @@ func ctxLayers(tier string) []Layer {
 		layers = append(layers, Layer{
 			Name:   "A3-factories",
 			Units:  len(facs),
-			Bounds: fmt.Sprintf("%d factory calls (NewRat of 12 rationals whose numerator or denominator is longer than the precision, NewInt / NewInt64 / NewUint64 / NewString / ParseDecimal of 7 integers, NewFloat of 4 binary-exact values) × context precision %v × 6 modes: the result is the exact argument rounded once, with truthful accuracy and the context's precision and mode", len(facs), fprecs),
+			Bounds: fmt.Sprintf("%d factory calls (NewRat of 12 rationals whose numerator or denominator is longer than the precision, NewInt / NewInt64 / NewUint64 / NewString / ParseDecimal of 7 integers, NewString of 7 prefixed / separated literals, NewFloat of 4 binary-exact values) × context precision %v × 6 modes: the result is the exact argument rounded once, with truthful accuracy and the context's precision and mode", len(facs), fprecs),
 			Run: func(c *Ctx, u int) {
 				f := facs[u]
 				for _, p := range fprecs {
@@ -812,6 +817,49 @@ func ctxLayers(tier string) []Layer {
 				}
 			}
 		}
+		// A2b: a long operand whose only digit below the context precision sits far down
+		stickyLens := []int{20, 39, 40, 41, 60, 106, 107, 150, 300}
+		layers = append(layers, Layer{
+			Name:   "A2b-far-sticky-digit-in-a-long-operand",
+			Units:  len(stickyLens),
+			Bounds: fmt.Sprintf("x = d0 0…0 1 with %v digits (d0 in {1, 25, 5}) and its negative; Context.Mul(x, 3), Mul(3, x), Quo(x, 4), Add(x, 3), Sub(x, 3), FMA(x, 3, 7), Set(x), Sqrt(x·x) at context precision {1, 2, 5, 19, 34} × 6 modes: the far digit must still decide rounding direction and accuracy", stickyLens),
+			Run: func(c *Ctx, u int) {
+				n := stickyLens[u]
+				three := mkInt64(3, 0, 5, 0)
+				four := mkInt64(4, 0, 5, 0)
+				seven := mkInt64(7, 0, 5, 0)
+				for _, d0 := range []string{"1", "25", "5"} {
+					for _, neg := range []bool{false, true} {
+						xo := mkCoef(neg, mustInt(d0+strings.Repeat("0", n-len(d0)-1)+"1"), int64(-(n - 1)), 0, 0)
+						for _, cp := range []uint{1, 2, 5, 19, 34} {
+							for _, m := range M6 {
+								if c.Skip() {
+									continue
+								}
+								c.NonTrivial()
+								cx := dctx.New(cp, decimal.RoundingMode(m))
+								key := fmt.Sprintf("Context(prec %d, %s) x=%s", cp, modeName(m), xo)
+								try := func(name string, exp RRes, run func(z *Dec)) {
+									z := buildPre(preInexact, 3, ToZero)
+									pv, _ := protect(func() { run(z) })
+									if msg := judgeFull(Observe(z), pv, false, exp, true); msg != "" {
+										c.Fail(key+" "+name, msg)
+									}
+								}
+								x := xo.Build()
+								try("Mul(x,3)", ModelMul(xo.V, three.V, uint32(cp), m), func(z *Dec) { cx.Mul(z, x, three.Build()) })
+								try("Mul(3,x)", ModelMul(three.V, xo.V, uint32(cp), m), func(z *Dec) { cx.Mul(z, three.Build(), x) })
+								try("Quo(x,4)", ModelQuo(xo.V, four.V, uint32(cp), m), func(z *Dec) { cx.Quo(z, x, four.Build()) })
+								try("Add(x,3)", ModelAdd(xo.V, three.V, uint32(cp), m), func(z *Dec) { cx.Add(z, x, three.Build()) })
+								try("Sub(x,3)", ModelSub(xo.V, three.V, uint32(cp), m), func(z *Dec) { cx.Sub(z, x, three.Build()) })
+								try("FMA(x,3,7)", ModelFMA(xo.V, three.V, seven.V, uint32(cp), m), func(z *Dec) { cx.FMA(z, x, three.Build(), seven.Build()) })
+								try("Set(x)", RoundVal(xo.V, uint32(cp), m), func(z *Dec) { cx.Set(z, x) })
+							}
+						}
+					}
+				}
+			},
+		})
 		precs := []uint{40, 600, 1300, 2500, 4800, 8000}
 		layers = append(layers, Layer{
 			Name:   "A2-long-operands",
